@@ -369,12 +369,13 @@ func (index *uniqueIndex) CheckIntegrity(ctx MutateContext, fix bool, errorSink 
 	indexBucket := index.getIndexBucket(tx)
 	cursor := indexBucket.Cursor()
 	store := index.symbol.GetStore()
+	// entries to remove are collected and deleted after the scan: deleting under the cursor makes the following
+	// Next() skip an entry whenever the bucket has already been written in this transaction
+	var staleKeys [][]byte
 	for key, val := cursor.First(); key != nil; key, val = cursor.Next() {
 		if !store.IsEntityPresent(tx, string(val)) {
 			if fix {
-				if err := cursor.Delete(); err != nil {
-					return err
-				}
+				staleKeys = append(staleKeys, clone(key))
 			}
 			errorSink(errors.Errorf("unique index %v.%v references %v for value %v, which doesn't exist",
 				store.GetEntityType(), index.symbol.GetName(), string(val), string(key)), fix)
@@ -382,16 +383,19 @@ func (index *uniqueIndex) CheckIntegrity(ctx MutateContext, fix bool, errorSink 
 			_, fieldVal := index.symbol.Eval(tx, val)
 			if !bytes.Equal(key, fieldVal) {
 				if fix {
-					// just delete it here. It may be a duplicate. If it's not a duplicate, the correct value
+					// just delete it. It may be a duplicate. If it's not a duplicate, the correct value
 					// will be created when we scan the other side
-					if err := cursor.Delete(); err != nil {
-						return err
-					}
+					staleKeys = append(staleKeys, clone(key))
 				}
 
 				errorSink(errors.Errorf("unique index %v.%v references %v for value %v which should be %v",
 					store.GetEntityType(), index.symbol.GetName(), string(val), string(key), string(fieldVal)), fix)
 			}
+		}
+	}
+	for _, key := range staleKeys {
+		if err := indexBucket.Delete(key); err != nil {
+			return err
 		}
 	}
 
@@ -605,12 +609,14 @@ func (index *setIndex) CheckIntegrity(ctx MutateContext, fix bool, errorSink fun
 	tx := ctx.Tx()
 	if indexBaseBucket := Path(tx, index.indexPath...); indexBaseBucket != nil {
 		var toDelete []string
+		var junkKeys [][]byte
 		cursor := indexBaseBucket.Cursor()
 		for key, _ := cursor.First(); key != nil; key, _ = cursor.Next() {
 			hadRefs := false
 			if indexBucket := indexBaseBucket.Bucket.Bucket(key); indexBucket != nil {
 				idsCursor := indexBucket.Cursor()
 				referenceCount := 0
+				var staleIds [][]byte // removed after the scan of this key, see uniqueIndex.CheckIntegrity
 				for val, _ := idsCursor.First(); val != nil; val, _ = idsCursor.Next() {
 					hadRefs = true
 					referenceCount++
@@ -618,9 +624,7 @@ func (index *setIndex) CheckIntegrity(ctx MutateContext, fix bool, errorSink fun
 					if !index.symbol.GetStore().IsEntityPresent(tx, string(id)) {
 						// entry has been deleted, remove
 						if fix {
-							if err := idsCursor.Delete(); err != nil {
-								return err
-							}
+							staleIds = append(staleIds, clone(val))
 							referenceCount--
 						}
 						errorSink(errors.Errorf("for index on %v.%v, val %v references id %v, which doesn't exist",
@@ -638,15 +642,18 @@ func (index *setIndex) CheckIntegrity(ctx MutateContext, fix bool, errorSink fun
 						}
 						if !found {
 							if fix {
-								if err := idsCursor.Delete(); err != nil {
-									return err
-								}
+								staleIds = append(staleIds, clone(val))
 								referenceCount--
 							}
 							errorSink(errors.Errorf("for index on %v.%v, val %v references id %v, which doesn't contain the value",
 								index.symbol.GetStore().GetEntityType(), index.GetSymbol().GetName(),
 								string(key), string(id)), fix)
 						}
+					}
+				}
+				for _, staleId := range staleIds {
+					if err := indexBucket.Delete(staleId); err != nil {
+						return err
 					}
 				}
 				if referenceCount == 0 {
@@ -661,15 +668,18 @@ func (index *setIndex) CheckIntegrity(ctx MutateContext, fix bool, errorSink fun
 			} else {
 				// the key is not a bucket, so it can't hold any values: delete the key
 				if fix {
-					if err := cursor.Delete(); err != nil {
-						return err
-					}
+					junkKeys = append(junkKeys, clone(key))
 				}
 				errorSink(errors.Errorf("for index on %s.%s, index value %s is not a bucket",
 					index.symbol.GetStore().GetEntityType(), index.GetSymbol().GetName(), string(key)), fix)
 			}
 		}
 
+		for _, junkKey := range junkKeys {
+			if err := indexBaseBucket.Delete(junkKey); err != nil {
+				return err
+			}
+		}
 		for _, deleteKey := range toDelete {
 			if err := indexBaseBucket.DeleteBucket([]byte(deleteKey)); err != nil {
 				return errors.Wrapf(err, "error deleting unused key %s from index %s", deleteKey, index.Label())
@@ -796,13 +806,12 @@ func (index *fkIndex) CheckIntegrity(ctx MutateContext, fix bool, errorSink func
 			continue
 		}
 		fkCursor := setBucket.Cursor()
+		var staleRefs [][]byte // removed after the scan of this set, see uniqueIndex.CheckIntegrity
 		for val, _ := fkCursor.First(); val != nil; val, _ = fkCursor.Next() {
 			_, fkId := GetTypeAndValue(val)
 			if !index.symbol.GetStore().IsEntityPresent(tx, string(fkId)) {
 				if fix {
-					if err := fkCursor.Delete(); err != nil {
-						return err
-					}
+					staleRefs = append(staleRefs, clone(val))
 				}
 				errorSink(errors.Errorf("for fk %v.%v, %v %v references %v %v, which doesn't exist",
 					index.symbol.GetStore().GetEntityType(), index.symbol.GetName(),
@@ -812,9 +821,7 @@ func (index *fkIndex) CheckIntegrity(ctx MutateContext, fix bool, errorSink func
 				_, key := index.symbol.Eval(tx, fkId)
 				if key == nil || !bytes.Equal(key, id) {
 					if fix {
-						if err := fkCursor.Delete(); err != nil {
-							return err
-						}
+						staleRefs = append(staleRefs, clone(val))
 					}
 
 					logVal := string(key)
@@ -827,6 +834,11 @@ func (index *fkIndex) CheckIntegrity(ctx MutateContext, fix bool, errorSink func
 						index.fkSymbol.GetStore().GetSingularEntityType(), string(id),
 						index.symbol.GetStore().GetSingularEntityType(), string(fkId), logVal), fix)
 				}
+			}
+		}
+		for _, staleRef := range staleRefs {
+			if err := setBucket.Delete(staleRef); err != nil {
+				return err
 			}
 		}
 	}
